@@ -31,8 +31,8 @@ try:
         text = open(demo).read()
         # demos written against the agent's own worktree path: point them at the scratch tree
         text = text.replace('/tmp/wt/standin', os.path.join(VERIF, 'tsim', 'fakes'))
-        for w in ('/tmp/wt/%s' % meta.get('property', ''),):
-            text = text.replace(w, src)
+        import re as _re
+        text = _re.sub(r'/tmp/wt/(?!standin)[A-Za-z0-9]+', src, text)      # any agent worktree path
         os.makedirs(os.path.join(src, '_out'), exist_ok=True)      # same relative place as in the agent's worktree
         dp = os.path.join(src, '_out', 'demo.py'); open(dp, 'w').write(text)
         r = subprocess.run(['/venv/bin/python', dp], cwd=src, env=e, capture_output=True, text=True, timeout=900)
